@@ -1,0 +1,449 @@
+//go:build verif
+
+package logx
+
+import (
+	"bytes"
+	"compress/gzip"
+	"encoding/json"
+	"io"
+	"os"
+	"path/filepath"
+	"sort"
+	"strings"
+	"testing"
+	"time"
+
+	"github.com/gotid/god/internal/verifdrv"
+)
+
+// Case: a rule configuration, a pre-seeded directory and a script of writes (each with the clock
+// string the rule shall see) and delete releases (each with the boundary date the clean-up shall
+// compute). Records are runs of one byte (33+id) so that files can be read back as (id, length) runs.
+type verifSeed struct {
+	Name string   `json:"name"`
+	Recs [][2]int `json:"recs"`
+	Gz   int      `json:"gz"`
+}
+
+type verifEvent struct {
+	W []json.RawMessage `json:"w,omitempty"` // [id, len, "stamp"]
+	D *string           `json:"d,omitempty"` // boundary date "2006-01-02" of the released clean-up
+}
+
+type verifCase struct {
+	Kind       string       `json:"kind"` // daily | size
+	File       string       `json:"file"`
+	Delim      string       `json:"delim"`
+	Days       int          `json:"days"`
+	Gzip       bool         `json:"gzip"`
+	Compress   bool         `json:"compress"`
+	MaxSize    int64        `json:"maxsize"` // bytes
+	MaxBackups int          `json:"maxbackups"`
+	Seeds      []verifSeed  `json:"seeds"`
+	Rot0       string       `json:"rot0"`
+	Now0       string       `json:"now0"`
+	Events     []verifEvent `json:"events"`
+	EndB       string       `json:"endb"`
+}
+
+type verifFile struct {
+	Name string   `json:"name"`
+	Runs [][2]int `json:"runs"`
+	Gz   int      `json:"gz"`
+}
+
+type verifDel struct {
+	B0     string      `json:"b0"`
+	B1     string      `json:"b1"`
+	Before []string    `json:"before"`
+	Outs   []verifFile `json:"outs"`
+	After  []string    `json:"after"`
+}
+
+type verifLog struct {
+	W   *int      `json:"w,omitempty"`
+	Rot bool      `json:"rot,omitempty"`
+	D   *verifDel `json:"d,omitempty"`
+}
+
+type verifToken struct {
+	release chan string
+	done    chan struct{}
+	del     *verifDel
+	outs    []string
+}
+
+// verifRule delegates every decision to the real rule; it only translates between the scripted
+// clock strings and the wall clock the real rule reads (equality with "now" is preserved, scripted
+// dates lie in the past), and gates the calls so that the script decides the interleaving.
+type verifRule struct {
+	kind      string
+	real      RotateRule
+	daily     *DailyRotateRule
+	size      *SizeLimitRotateRule
+	cfgDays   int
+	dir       string
+	scriptNow string
+	scriptRot string
+	gated     bool
+	entered   chan struct{}
+	release   chan struct{}
+	nBackup   int
+	names     []string
+	tokens    chan *verifToken
+}
+
+func (w *verifRule) nowStr() string {
+	if w.kind == "size" {
+		return getNowDateInRFC3339Format()
+	}
+	return getNowDate()
+}
+
+func (w *verifRule) toReal(s, realNow string) string {
+	if s == w.scriptNow {
+		return realNow
+	}
+	return s
+}
+
+func (w *verifRule) BackupFilename() string {
+	for {
+		a := w.nowStr()
+		s := w.real.BackupFilename()
+		if w.nowStr() != a {
+			continue
+		}
+		if i := strings.LastIndex(s, a); i >= 0 {
+			s = s[:i] + w.scriptNow + s[i+len(a):]
+		}
+		w.nBackup++
+		w.names = append(w.names, s)
+		return s
+	}
+}
+
+func (w *verifRule) MarkRotated() {
+	for {
+		a := w.nowStr()
+		w.daily.rotatedTime = w.toReal(w.scriptRot, a)
+		w.real.MarkRotated()
+		got := w.daily.rotatedTime
+		if w.nowStr() != a {
+			continue
+		}
+		if got == a {
+			w.scriptRot = w.scriptNow
+		} else if got != w.toReal(w.scriptRot, a) {
+			w.scriptRot = got
+		}
+		return
+	}
+}
+
+func (w *verifRule) ShallRotate(size int64) bool {
+	if w.gated {
+		w.entered <- struct{}{}
+		<-w.release
+	}
+	for {
+		a := w.nowStr()
+		w.daily.rotatedTime = w.toReal(w.scriptRot, a)
+		res := w.real.ShallRotate(size)
+		if w.nowStr() == a {
+			return res
+		}
+	}
+}
+
+func (w *verifRule) boundaryFormat() string {
+	if w.kind == "size" {
+		return fileTimeFormat
+	}
+	return dateFormat
+}
+
+func (w *verifRule) OutdatedFiles() []string {
+	tok := &verifToken{release: make(chan string), done: make(chan struct{})}
+	w.tokens <- tok
+	bdate := <-tok.release
+	days := w.cfgDays
+	t0 := time.Now()
+	if days > 0 {
+		bd, err := time.ParseInLocation(dateFormat, bdate, time.UTC)
+		if err == nil {
+			today := t0.UTC().Truncate(24 * time.Hour)
+			days = int(today.Sub(bd).Hours() / 24)
+		}
+	}
+	del := &verifDel{Before: verifNames(w.dir)}
+	var outs []string
+	if w.size != nil {
+		cp := *w.size
+		cp.days = days
+		outs = cp.OutdatedFiles()
+	} else {
+		cp := *w.daily
+		cp.days = days
+		outs = cp.OutdatedFiles()
+	}
+	t1 := time.Now()
+	if w.cfgDays > 0 {
+		del.B0 = t0.Add(-time.Hour * time.Duration(hoursPerDay*days)).Format(w.boundaryFormat())
+		del.B1 = t1.Add(-time.Hour * time.Duration(hoursPerDay*days)).Format(w.boundaryFormat())
+	}
+	sorted := append([]string(nil), outs...)
+	sort.Strings(sorted)
+	del.Outs = []verifFile{}
+	for _, f := range sorted {
+		del.Outs = append(del.Outs, verifReadFile(f))
+	}
+	tok.del = del
+	tok.outs = outs
+	close(tok.done)
+	return outs
+}
+
+func verifNames(dir string) []string {
+	ents, _ := os.ReadDir(dir)
+	out := []string{}
+	for _, e := range ents {
+		out = append(out, e.Name())
+	}
+	sort.Strings(out)
+	return out
+}
+
+func verifReadFile(path string) verifFile {
+	vf := verifFile{Name: filepath.Base(path), Runs: [][2]int{}}
+	data, err := os.ReadFile(path)
+	if err != nil {
+		vf.Gz = -2
+		return vf
+	}
+	for len(data) >= 2 && data[0] == 0x1f && data[1] == 0x8b {
+		r, err := gzip.NewReader(bytes.NewReader(data))
+		if err != nil {
+			vf.Gz = -1
+			return vf
+		}
+		plain, err := io.ReadAll(r)
+		if err != nil {
+			vf.Gz = -1
+			return vf
+		}
+		data = plain
+		vf.Gz++
+	}
+	for i := 0; i < len(data); {
+		j := i
+		for j < len(data) && data[j] == data[i] {
+			j++
+		}
+		vf.Runs = append(vf.Runs, [2]int{int(data[i]) - 33, j - i})
+		i = j
+	}
+	return vf
+}
+
+func verifExists(path string) bool {
+	_, err := os.Lstat(path)
+	return err == nil
+}
+
+func verifWait(cond func() bool, d time.Duration) bool {
+	deadline := time.Now().Add(d)
+	for !cond() {
+		if time.Now().After(deadline) {
+			return false
+		}
+		time.Sleep(50 * time.Microsecond)
+	}
+	return true
+}
+
+var verifGzipStuck bool
+
+func verifRunCase(c verifCase) any {
+	fail := func(msg string) any { return map[string]any{"error": msg} }
+	dir, err := os.MkdirTemp("", "c19-")
+	if err != nil {
+		return fail(err.Error())
+	}
+	defer os.RemoveAll(dir)
+	if d, err := filepath.EvalSymlinks(dir); err == nil {
+		dir = filepath.Clean(d)
+	}
+	for _, s := range c.Seeds {
+		var data []byte
+		for _, r := range s.Recs {
+			data = append(data, bytes.Repeat([]byte{byte(33 + r[0])}, r[1])...)
+		}
+		for k := 0; k < s.Gz; k++ {
+			var buf bytes.Buffer
+			zw := gzip.NewWriter(&buf)
+			zw.Write(data)
+			zw.Close()
+			data = buf.Bytes()
+		}
+		if err := os.WriteFile(filepath.Join(dir, s.Name), data, 0o600); err != nil {
+			return fail(err.Error())
+		}
+	}
+
+	filename := filepath.Join(dir, c.File)
+	w := &verifRule{kind: c.Kind, cfgDays: c.Days, dir: dir, scriptNow: c.Now0, scriptRot: c.Rot0,
+		entered: make(chan struct{}), release: make(chan struct{}), tokens: make(chan *verifToken, 4096)}
+	if c.Kind == "size" {
+		r := NewSizeLimitRotateRule(filename, c.Delim, c.Days, 1, c.MaxBackups, c.Gzip).(*SizeLimitRotateRule)
+		r.maxSize = c.MaxSize
+		w.real, w.size, w.daily = r, r, &r.DailyRotateRule
+	} else {
+		r := DefaultRotateRule(filename, c.Delim, c.Days, c.Gzip).(*DailyRotateRule)
+		w.real, w.daily = r, r
+	}
+	l, err := NewLogger(filename, w, c.Compress)
+	if err != nil {
+		return fail(err.Error())
+	}
+	w.gated = true
+
+	logs := []verifLog{}
+	var pending []*verifToken
+	var deferred []string
+	rotations := 0
+	prevBackups := w.nBackup
+	errs := []string{}
+
+	collect := func() {
+		// every rotation started one postRotate goroutine; wait until it stands at the gate
+		verifWait(func() bool {
+			for {
+				select {
+				case t := <-w.tokens:
+					pending = append(pending, t)
+					continue
+				default:
+				}
+				break
+			}
+			return len(pending)+len(logsDeletes(logs)) >= rotations
+		}, 2*time.Second)
+	}
+	runDelete := func(bdate string) {
+		if len(pending) == 0 {
+			return
+		}
+		tok := pending[0]
+		pending = pending[1:]
+		tok.release <- bdate
+		<-tok.done
+		ok := verifWait(func() bool {
+			for _, f := range tok.outs {
+				if verifExists(f) {
+					return false
+				}
+			}
+			return true
+		}, 5*time.Second)
+		if !ok {
+			errs = append(errs, "delete-timeout")
+		}
+		tok.del.After = verifNames(dir)
+		logs = append(logs, verifLog{D: tok.del})
+	}
+	// called when the previous write is known to be complete
+	settle := func() {
+		if w.nBackup > prevBackups {
+			rotations += w.nBackup - prevBackups
+			if c.Compress && !verifGzipStuck {
+				f := w.names[len(w.names)-2]
+				if !verifWait(func() bool { return !verifExists(f) }, 3*time.Second) {
+					errs = append(errs, "gzip-timeout")
+					verifGzipStuck = true // do not wait again in this process
+				}
+			}
+			for i := len(logs) - 1; i >= 0; i-- {
+				if logs[i].W != nil {
+					logs[i].Rot = true
+					break
+				}
+			}
+			prevBackups = w.nBackup
+		}
+		collect()
+		for _, b := range deferred {
+			runDelete(b)
+		}
+		deferred = nil
+	}
+
+	nw := 0
+	for _, e := range c.Events {
+		if e.D != nil {
+			deferred = append(deferred, *e.D)
+			continue
+		}
+		var id, n int
+		var stamp string
+		if len(e.W) != 3 || json.Unmarshal(e.W[0], &id) != nil || json.Unmarshal(e.W[1], &n) != nil || json.Unmarshal(e.W[2], &stamp) != nil {
+			return fail("bad event")
+		}
+		data := bytes.Repeat([]byte{byte(33 + id)}, n)
+		if _, err := l.Write(data); err != nil {
+			return fail("write: " + err.Error())
+		}
+		select {
+		case <-w.entered:
+		case <-time.After(5 * time.Second):
+			return fail("worker did not take the record")
+		}
+		settle()
+		w.scriptNow = stamp
+		k := nw
+		logs = append(logs, verifLog{W: &k})
+		nw++
+		w.release <- struct{}{}
+	}
+	closeErr := l.Close()
+	settle()
+	for len(pending) > 0 {
+		runDelete(c.EndB)
+	}
+
+	final := []verifFile{}
+	for _, n := range verifNames(dir) {
+		final = append(final, verifReadFile(filepath.Join(dir, n)))
+	}
+	res := map[string]any{"log": logs, "final": final, "rotations": rotations, "errs": errs}
+	if closeErr != nil {
+		res["close"] = "error"
+	} else {
+		res["close"] = "ok"
+	}
+	return res
+}
+
+func logsDeletes(logs []verifLog) []int {
+	var out []int
+	for i, e := range logs {
+		if e.D != nil {
+			out = append(out, i)
+		}
+	}
+	return out
+}
+
+// TestVerifDriver drives RotateLogger through NewLogger/Write/Close on a temp directory.
+func TestVerifDriver(t *testing.T) {
+	time.Local = time.UTC
+	Disable()
+	verifdrv.Run(t, func(raw json.RawMessage) any {
+		var c verifCase
+		if err := json.Unmarshal(raw, &c); err != nil {
+			return map[string]any{"error": err.Error()}
+		}
+		return verifRunCase(c)
+	})
+}
